@@ -11,28 +11,48 @@ import (
 // templates whose output could depend on a Go map's iteration order
 var templates = []string{
 	// object properties enumerate in declaration/insertion order
-	`class P { public $a = 1; public $b = 2; public $c = 3; } $o = new P(); foreach ($o as $k => $v) { emit($v); } emit(9);`,
-	`class P { public $a = 1; public $b = 2; } $o = new P(); $o->z = 7; $o->y = 8; foreach ($o as $k => $v) { emit($v); } emit(9);`,
+	`class P# { public $a = 1; public $b = 2; public $c = 3; } $o = new P#(); foreach ($o as $k => $v) { emit($v); } emit(9);`,
+	`class P# { public $a = 1; public $b = 2; } $o = new P#(); $o->z = 7; $o->y = 8; foreach ($o as $k => $v) { emit($v); } emit(9);`,
 	// string-keyed arrays enumerate in insertion order
 	`$m = ["x" => 1, "y" => 2, "z" => 3]; foreach ($m as $k => $v) { emit($v); } emit(9);`,
 	`$m = ["x" => 1, "y" => 2, "z" => 3]; unset($m["y"]); $m["w"] = 4; foreach ($m as $k => $v) { emit($v); } emit(9);`,
 	// class lookup by a differently-cased name with two candidates
-	`class Foo { function m() { return 1; } } class Bar { function m() { return 2; } } $o = new foo(); emit($o->m()); $p = new BAR(); emit($p->m());`,
+	`class Foo# { function m() { return 1; } } class Bar# { function m() { return 2; } } $o = new foo#(); emit($o->m()); $p = new BAR#(); emit($p->m());`,
 	// methods / static members / constants of a class with several members
-	`class Q { const A = 1; const B = 2; static $s = 5; static $t = 6; function f() { return 1; } function g() { return 2; } function h() { return 3; } } $o = new Q(); emit($o->f() + $o->g() * 10 + $o->h() * 100 + Q::A + Q::B + Q::$s + Q::$t);`,
+	`class Q# { const A = 1; const B = 2; static $s = 5; static $t = 6; function f() { return 1; } function g() { return 2; } function h() { return 3; } } $o = new Q#(); emit($o->f() + $o->g() * 10 + $o->h() * 100 + Q#::A + Q#::B + Q#::$s + Q#::$t);`,
 	// inheritance + interfaces (class map with several entries)
-	`interface I {} class A implements I { function m() { return 1; } } class B extends A { function m() { return 2; } } class C extends B {} $o = new C(); emit($o->m()); emit($o instanceof I); emit($o instanceof A);`,
+	`interface I# {} class A# implements I# { function m() { return 1; } } class B# extends A# { function m() { return 2; } } class C# extends B# {} $o = new C#(); emit($o->m()); emit($o instanceof I#); emit($o instanceof A#);`,
 	// try/catch over a small exception hierarchy
-	`class E1 extends Exception {} class E2 extends E1 {} try { throw new E2("x"); } catch (E1 $e) { mark(1); } finally { mark(2); } mark(3);`,
+	`class E1# extends Exception {} class E2# extends E1# {} try { throw new E2#("x"); } catch (E1# $e) { mark(1); } finally { mark(2); } mark(3);`,
 	// two classes whose names differ only in case, looked up by a third spelling
-	`class Foo { function m() { return 1; } } class FOO { function m() { return 2; } } $o = new foo(); emit($o->m());`,
+	`class Foo# { function m() { return 1; } } class FOO# { function m() { return 2; } } $o = new foo#(); emit($o->m());`,
 	// functions table
-	`function f1() { return 1; } function f2() { return 2; } function f3() { return 3; } emit(f1() + f2() * 10 + f3() * 100);`,
+	`function f1#() { return 1; } function f2#() { return 2; } function f3#() { return 3; } emit(f1#() + f2#() * 10 + f3#() * 100);`,
 	// state a program leaves behind: superglobals, globals, static properties, static locals
 	`emit(isset($_SERVER["LEAK"]) ? 1 : 0); $_SERVER["LEAK"] = 1; emit(isset($_SERVER["LEAK"]) ? 1 : 0);`,
 	`emit(isset($_GET["k"]) ? 1 : 0); $_GET["k"] = 5; emit(isset($_GET["k"]) ? 1 : 0); emit(isset($_POST["k"]) ? 1 : 0); $_POST["k"] = 6; emit(isset($_COOKIE["k"]) ? 1 : 0); $_COOKIE["k"] = 7;`,
-	`function g() { global $gv; $gv = ($gv ?? 0) + 1; return $gv; } emit(g()); emit(g());`,
-	`class S { public static $n = 0; } S::$n++; emit(S::$n); function c() { static $k = 0; $k++; return $k; } emit(c()); emit(c());`,
+	`function g#() { global $gv; $gv = ($gv ?? 0) + 1; return $gv; } emit(g#()); emit(g#());`,
+	`class S# { public static $n = 0; } S#::$n++; emit(S#::$n); function c#() { static $k = 0; $k++; return $k; } emit(c#()); emit(c#());`,
+	// the names of earlier templates declared again with DIFFERENT definitions (a verdict, member or
+	// body remembered per name from another VM's program would show here)
+	`interface I# {} class A# { function m() { return 5; } } class B# { function m() { return 6; } } class C# extends B# implements I# {} $o = new C#(); emit($o->m()); emit($o instanceof I#); emit($o instanceof A#); emit($o instanceof B#); foreach ($o as $k => $v) { emit($v); } emit(9);`,
+	`class P# { public $c = 7; public $a = 8; } $o = new P#(); foreach ($o as $k => $v) { emit($v); } class Q# { const A = 10; static $s = 50; function f() { return 4; } } $q = new Q#(); emit($q->f() + Q#::A + Q#::$s); function f1#() { return 9; } emit(f1#()); emit(9);`,
+	`class E1# extends Exception {} class E2# extends Exception {} try { throw new E2#("x"); } catch (E1# $e) { mark(1); } catch (E2# $e) { mark(4); } finally { mark(2); } mark(3); class Foo# { function m() { return 3; } } $o = new foo#(); emit($o->m());`,
+}
+
+// inst instantiates a template: every class / interface / function name in it carries a '#'
+// that is replaced by suffix ("" = the program as written, anything else = a renamed copy that
+// shares no name with any other program)
+func inst(t, suffix string) string {
+	out := make([]byte, 0, len(t)+16)
+	for i := 0; i < len(t); i++ {
+		if t[i] == '#' {
+			out = append(out, suffix...)
+		} else {
+			out = append(out, t[i])
+		}
+	}
+	return string(out)
 }
 
 func runLog(src string) ([]sx.Obs, bool) {
@@ -63,13 +83,13 @@ func sameLog(a, b []sx.Obs) bool {
 // origami code equals the output under insertion order.
 func H_order() {
 	k := symx.Choose("template", 10)
-	ref, ok := runLog(templates[k])
+	ref, ok := runLog(inst(templates[k], ""))
 	symx.Assert(ok, "template runs (reference order)")
 	if !ok {
 		return
 	}
 	symx.MapOrder(true)
-	got, ok2 := runLog(templates[k])
+	got, ok2 := runLog(inst(templates[k], ""))
 	symx.MapOrder(false)
 	symx.Assert(ok2, "template runs under a permuted map order")
 	if !ok2 {
@@ -145,14 +165,16 @@ func H_ordered_map() {
 // H_pairs: program A then program B on fresh VMs in one process behaves like B alone.
 func H_pairs() {
 	a, b := symx.Choose("A", len(templates)), symx.Choose("B", len(templates))
-	alone, ok := runLog(templates[b])
+	// reference: B as a renamed copy (no class / interface / function name in common with A or B),
+	// run first on its own VM: whatever the process remembers per NAME from it cannot reach B
+	alone, ok := runLog(inst(templates[b], "Zq"))
 	symx.Assert(ok, "B runs alone")
 	if !ok {
 		return
 	}
-	_, okA := runLog(templates[a])
+	_, okA := runLog(inst(templates[a], ""))
 	symx.Assert(okA, "A runs")
-	after, ok2 := runLog(templates[b])
+	after, ok2 := runLog(inst(templates[b], ""))
 	symx.Assert(ok2, "B runs after A")
 	if !ok2 {
 		return
@@ -160,5 +182,51 @@ func H_pairs() {
 	// recorded finding: $_SERVER is cached in a package-level variable (the C11 root cause), so what one
 	// program stored in it is still there for a program run later on a fresh VM of the same process
 	symx.AssertKnown(sameLog(alone, after), "B behaves the same whether or not A ran earlier on another VM", b == 10 || b == 11, "C20-superglobal-cache-outlives-vm")
+	symx.Reach("end")
+}
+
+// H_include: two programs on fresh VMs that include the SAME file (virtual file system): the
+// second program must see the file's definitions and return value exactly as if it were the only
+// program of the process, whatever the first program did with them.
+func H_include() {
+	formsA, formB := symx.Choose("formA", 5), symx.Choose("formB", 4)
+	mutate := symx.Choose("mutate", 2)
+	forms := []string{"include", "include_once", "require", "require_once"}
+	defer symx.VCleanup()
+	symx.VReset()
+	root := symx.VRoot()
+	symx.VFile(root+"/lib.php", "<?php\nfunction libf() { return 5; }\nclass LibC { public $v = 3; }\nreturn [1, 2];\n")
+	prog := func(form string, mut bool) string {
+		src := "$r = " + form + " \"" + root + "/lib.php\";\nemit(libf()); $o = new LibC(); emit($o->v); emit($r[0]); emit($r[1]);\n"
+		if mut {
+			src += "$r[0] = 70; $o->v = 71;\n"
+		}
+		return src
+	}
+	if formsA < 4 {
+		s := sx.Compile(prog(forms[formsA], mutate == 1))
+		symx.Assert(s.Err == nil, "A parses")
+		if s.Err != nil {
+			return
+		}
+		_, ctl := s.Run()
+		symx.Assert(ctl == nil, "A runs")
+	}
+	s := sx.Compile(prog(forms[formB], false))
+	symx.Assert(s.Err == nil, "B parses")
+	if s.Err != nil {
+		return
+	}
+	_, ctl := s.Run()
+	symx.Assert(ctl == nil, "B runs (the included definitions exist on its VM)")
+	if ctl != nil {
+		return
+	}
+	want := []int{5, 3, 1, 2}
+	ok := len(sx.Log) == 4
+	for i := 0; ok && i < 4; i++ {
+		ok = sx.Log[i].Kind == 'i' && sx.Log[i].I == want[i]
+	}
+	symx.Assert(ok, "B sees the included file's functions, classes and return value as if it ran alone")
 	symx.Reach("end")
 }
